@@ -369,7 +369,7 @@ Fixpoint acc_targets (d : node) (Tl : list target) (ps : list (option N * pyval)
 
 Lemma run_del_acc : forall d ps Tl,
   wf_doc d -> ordered_from d Tl (map pc_pair ps) = true ->
-  run_del ps (prune (inT Tl) d) = Done (prune (inT (acc_targets d Tl (map pc_pair ps))) d).
+  run_del ps (prune (inT Tl) d) = MDone (prune (inT (acc_targets d Tl (map pc_pair ps))) d).
 Proof.
   intros d ps. induction ps as [|p rest IH]; intros Tl Hwf Hord; simpl.
   - reflexivity.
@@ -392,7 +392,7 @@ Qed.
 Theorem delete_exact : forall d cs,
   wf_doc d ->
   no_dup_no_disorder d (map pc_pair (del_order cs)) = true ->
-  delete_nodes cs d = Done (delete_spec d (map pc_pair (del_order cs))).
+  delete_nodes cs d = MDone (delete_spec d (map pc_pair (del_order cs))).
 Proof.
   intros d cs Hwf Hg. unfold delete_nodes, delete_spec, no_dup_no_disorder in *.
   rewrite <- (prune_none (inT []) d) at 1 by reflexivity.
